@@ -85,11 +85,12 @@ def mapSet {β} (m : List (Nat × β)) (k : Nat) (v : β) : List (Nat × β) :=
 
 /-- `readWALPageOffsets` after the fix of its error handling: any header problem means
     "no valid frames".  Returns (pgno → offset of last committed frame), last commit. -/
-def walPageOffsets (w : ByteArray) : Except String (List (Nat × Nat) × Nat) := do
+def walPageOffsets (w : ByteArray) (dbPageSize : Nat) : Except String (List (Nat × Nat) × Nat) := do
   match ← readWalHeader w with
   | .eof => return ([], 0)
   | .err _ => return ([], 0)
   | .ok h =>
+    if h.pageSize ≠ dbPageSize then return ([], 0)    -- a WAL for another page size has no valid frames here
     let ps := h.pageSize
     let fsz := 24 + ps
     let nmax := (w.size - 32) / fsz
@@ -147,7 +148,7 @@ def buildTxFrames (w : ByteArray) (pageSize walOffset : Nat) (bo : Option Bool) 
 
 /-- last committed version of each page and the size from the last commit frame -/
 def walView (w : ByteArray) (pageSize : Nat) : List (Nat × ByteArray) × Nat :=
-  match walPageOffsets w with
+  match walPageOffsets w pageSize with
   | .ok (offs, commit) =>
     match readWalHeader w with
     | .ok (.ok h) => if h.pageSize = pageSize then (offs.map fun e => (e.1, w.extract (e.2 + 24) (e.2 + 24 + pageSize)), commit) else ([], 0)
